@@ -21,7 +21,9 @@ P = M.P
 # name (an error constant kept as a Ranges), a constant array folded when the cell is compiled
 # and spread over a larger range (an Array with its own default)
 EXTRA = {P + 'L1': '=FOO+1', P + 'L2': '=IFERROR(FOO,%sA1)' % P, P + 'M1:O1': '={1,2}',
-         P + 'M2': '=IF(ISNA(%sO1),%sN1,-1)' % (P, P), P + 'M3:N4': '={1,2;3,4}'}
+         P + 'M2': '=IF(ISNA(%sO1),%sN1,-1)' % (P, P), P + 'M3:N4': '={1,2;3,4}',
+         # lookup functions (their type classifier used to cache an unpicklable ufunc at its first call)
+         P + 'L3': '=MATCH(30,%sH1:H2,0)*10+VLOOKUP(1.5,%sH1:I2,2,FALSE)' % (P, P)}
 
 
 def build():
@@ -56,6 +58,8 @@ NM = M.NOPS + 2
 
 def _model(kind, op_a, op_b, first_a, k):
     """equivalence and independence of a model and its copy"""
+    build().calculate()                 # some model has been calculated in this process before (process-wide caches are warm
+    #                                     on every path and on replay alike)
     a = build()
     if first_a:
         mutate(a, op_a)                 # the copy is taken from a model that has a history
